@@ -64,6 +64,15 @@ type Config struct {
 	// NoSameNameInit: never read a name inside the initialiser of a local statement (or for bounds)
 	// that declares the same name
 	NoSameNameInit bool
+	// SameNameForOK: the bounds of a numeric for / explist of a generic for may read the loop
+	// variables' names even under NoSameNameInit
+	SameNameForOK bool
+	// SameNameAssignOK: the right-hand side of an assignment (and the body of `function N`) may read
+	// the assigned names even under NoSameNameInit
+	SameNameAssignOK bool
+	// SameNameBareInit: under NoSameNameInit a single-name local may still be initialised with the
+	// bare same name (`local v = v`, the earlier v)
+	SameNameBareInit bool
 	// GQualified: some accesses to variables are written `_G.name` (always the global of that name,
 	// whatever local is visible); the name token is then a field (Var == VarNone)
 	GQualified bool
@@ -374,7 +383,7 @@ func (g *Gen) statement(depth int) {
 		g.emit("for")
 		di := g.emitDecl(name)
 		g.emit("=")
-		if g.cfg.NoSameNameInit {
+		if g.cfg.NoSameNameInit && !g.cfg.SameNameForOK {
 			g.banned[name] = true
 		}
 		if g.cfg.NoFuncInForBounds {
@@ -414,7 +423,7 @@ func (g *Gen) statement(depth int) {
 			idx[i] = g.emitDecl(names[i])
 		}
 		g.emit("in")
-		if g.cfg.NoSameNameInit {
+		if g.cfg.NoSameNameInit && !g.cfg.SameNameForOK {
 			for _, nm := range names {
 				g.banned[nm] = true
 			}
@@ -635,6 +644,12 @@ func (g *Gen) localStat() {
 	if usedClose && ne == 0 {
 		ne = 1
 	}
+	if ne > 0 && n == 1 && g.cfg.NoSameNameInit && g.cfg.SameNameBareInit && attribs[0] == "" && g.intn(6, "bareSameName") == 0 {
+		// `local v = v`: the initialiser is the bare earlier variable (or global) of the same name
+		g.emit("=")
+		g.emitVar(names[0], false)
+		ne = -1
+	}
 	if ne > 0 {
 		g.emit("=")
 		if g.cfg.NoSameNameInit {
@@ -714,7 +729,7 @@ func (g *Gen) assignStat() {
 		}
 		before := len(g.Toks)
 		g.assignTarget()
-		if g.cfg.NoSameNameInit && len(g.Toks) == before+1 && g.Toks[before].Write {
+		if g.cfg.NoSameNameInit && !g.cfg.SameNameAssignOK && len(g.Toks) == before+1 && g.Toks[before].Write {
 			tnames = append(tnames, g.Toks[before].Text)
 		}
 	}
@@ -835,7 +850,7 @@ func (g *Gen) funcStat(depth int) {
 			}
 		}
 		g.emitVar(name, true)
-		if g.cfg.NoSameNameInit {
+		if g.cfg.NoSameNameInit && !g.cfg.SameNameAssignOK {
 			g.banned[name] = true
 		}
 		g.funcBody(depth, -1)
